@@ -628,12 +628,15 @@ def signature(case, clause, obs):
 
 
 META = {
-    'level_text': 'Theorems over the Lean model of SecNode.get_module/create_modules/_getSortedModules, Server._processCfg, the poll '
-                  'thread prologue and an abstract MultiEvent, for all configurations, fuel, schedules and choice functions of '
-                  'set.pop(): see design_notes/C15.md for the list (full vs _partial).  The model is tied to the code by running '
-                  'the real Server._processCfg + SecNode.shutdown_modules with instrumented module classes under the deterministic '
-                  'scheduler on all attachment graphs up to 4 modules (5 in the thorough tier: all DAGs + sampled cyclic graphs); '
-                  'the Lean monitors judge every implementation log.',
+    'level_text': 'Proved for all inputs on the Lean model of the repaired code: sorted_modules_topological (_getSortedModules returns '
+                  'every module once and users first on every graph with a topological numbering, for every choice of set.pop()), '
+                  'shutdown_phase_order (stopPoll before shutdown, once each, users first), ready_only_after_first_round (every '
+                  'schedule: ready only when every started poll thread reported its first round or the deadline passed).  '
+                  'init_order_once, attached_ready, bad_attachment_reported, writes_before_first_poll are stated in Lean but NOT '
+                  'proved; for them the evidence is differential: the real Server._processCfg + SecNode.shutdown_modules run with '
+                  'instrumented module classes under the deterministic scheduler on all attachment graphs up to 4 modules (thorough: '
+                  'all DAGs on 5 + sampled cyclic graphs), the model predicts every log exactly, and the Lean monitors judge every '
+                  'implementation log.  attached_ready has a recorded finding (proved counterexample attached_ready_fails).',
     'level_note': 'Trusted: Lean kernel + axioms propext/Classical.choice/Quot.sound; vlib.sched (virtual clock, gated threads); '
                   'multievent.py is re-executed from source with the scheduler\'s threading/time; the instrumented classes log '
                   'before calling super(); acyclicity is characterised by a rank function (topological numbering).',
